@@ -550,7 +550,11 @@ def tr_rpc_envelope(tree):
     br = [x for x in ast.walk(de) if isinstance(x, ast.If) and ast.dump(x.test) == ast.dump(
         ast.parse('ctx.in_body_doc is None', mode='eval').body)]
     call = 'ctx.in_object = self._doc_to_object(ctx, body_class, ctx.in_body_doc, self.validator)'
-    if len(br) == 1 and [ast.dump(x) for x in br[0].body] == tmpl('ctx.in_object = [None] * len(body_class._type_info)') \
+    # one None per member of the in-message; a wrapped in-message (a ComplexModel) always has a _type_info, so the
+    # getattr default (for the primitive in-message of a bare method) is outside the modelled region
+    absent = (tmpl('ctx.in_object = [None] * len(body_class._type_info)'),
+              tmpl("ctx.in_object = [None] * len(getattr(body_class, '_type_info', ()))"))
+    if len(br) == 1 and [ast.dump(x) for x in br[0].body] in absent \
             and [ast.dump(x) for x in br[0].orelse] == tmpl(call):
         nil = TRUE
     elif not br and any(ast.dump(x) == tmpl(call)[0] for x in ast.walk(de)):
